@@ -886,6 +886,11 @@ def run(ctx, R):
     r38(ctx, R)
     r39(ctx, R)
     r310(ctx, R)
+    # R3.11 (nothing omitted) and the R2.6 exits of the per-class
+    # intersection of trees (nothing returned that lacks a class)
+    from psa.rules import c02
+    c02.r26(ctx, R, 'R3.11', premature=True)
+    c02.r26(ctx, R, 'R3.12')
     from psa.rules import c20
     n6 = C.reuse_obligations(ctx, R, c20.r205, 'R3.6')
     R.count('R3.6', n6, 3)
